@@ -733,6 +733,10 @@ func (g *goEmitter) emit(x SExpr) (string, bool) {
 
 // runOverlayTest injects the test into a copy-free overlay of repo and runs it.
 func runOverlayTest(repo, test string) (string, error) {
+	return runOverlayTestNamed(repo, test, "TestGovcReplay")
+}
+
+func runOverlayTestNamed(repo, test, name string) (string, error) {
 	tmp, err := os.MkdirTemp("", "govc-overlay")
 	if err != nil {
 		return "", err
@@ -746,7 +750,7 @@ func runOverlayTest(repo, test string) (string, error) {
 	ob, _ := json.Marshal(ov)
 	of := filepath.Join(tmp, "overlay.json")
 	os.WriteFile(of, ob, 0o644)
-	cmd := exec.Command("go", "test", "-overlay", of, "-tags", "verif", "-vet=off", "-count=1", "-timeout", "60s", "-run", "^TestGovcReplay$", "-v", ".")
+	cmd := exec.Command("go", "test", "-overlay", of, "-tags", "verif", "-vet=off", "-count=1", "-timeout", "60s", "-run", "^"+name+"$", "-v", ".")
 	cmd.Dir = repo
 	cmd.Env = append(os.Environ(), "GOFLAGS=-mod=mod", "GOPROXY=off", "GOSUMDB=off", "GOTOOLCHAIN=local")
 	out, err := cmd.CombinedOutput()
@@ -754,7 +758,7 @@ func runOverlayTest(repo, test string) (string, error) {
 	if len(s) > 4000 {
 		s = s[:4000]
 	}
-	if err != nil && !strings.Contains(s, "GOVC-REPLAY:") {
+	if err != nil && !strings.Contains(s, "GOVC-REPLAY:") && !strings.Contains(s, "GOVC-WITNESS:") {
 		return s, fmt.Errorf("go test: %v", err)
 	}
 	return s, nil
